@@ -2,11 +2,11 @@ package props
 
 import (
 	"errors"
-	"strings"
 	"fmt"
 	"io"
 	"reflect"
 	"runtime"
+	"strings"
 	"sync"
 	"sync/atomic"
 	"time"
@@ -71,6 +71,8 @@ type streamRun struct {
 	consumer                     string
 	pause                        atomic.Int64 // consumer pauses
 	quiesced                     bool
+	shutdownAfter                int // the application asks for shutdown after this many deliveries (0 = never)
+	shutdownSent                 bool
 	poolEmpty, poolFull, poolCap int
 	poolSeen                     bool
 }
@@ -85,8 +87,11 @@ func dumpHash(m util.Message) (uint64, string) {
 }
 
 // startStream creates the stream and its consumer. consumer: eager | slow | bursty.
-func startStream(conn *sched.Conn, consumer string, pBefore, pAfter int) *streamRun {
+func startStream(conn *sched.Conn, consumer string, pBefore, pAfter int, shutdownAfter ...int) *streamRun {
 	s := &streamRun{conn: conn, parser: &yieldParser{before: pBefore, after: pAfter}, stop: make(chan struct{}), done: make(chan struct{}), consumer: consumer}
+	if len(shutdownAfter) > 0 {
+		s.shutdownAfter = shutdownAfter[0]
+	}
 	s.stream = util.NewMessageStream(conn, s.parser)
 	go s.consume()
 	return s
@@ -107,6 +112,13 @@ func (s *streamRun) consume() {
 			s.delivered = append(s.delivered, d)
 			s.mu.Unlock()
 			n++
+			if s.shutdownAfter > 0 && n == s.shutdownAfter && !s.shutdownSent {
+				s.shutdownSent = true
+				select {
+				case s.stream.Shutdown <- true:
+				default:
+				}
+			}
 			switch s.consumer {
 			case "slow":
 				for i := 0; i < 20; i++ {
